@@ -77,7 +77,10 @@ struct Probe {
 }
 
 pub fn check_c08_case(c: &C08Case, agg: &mut Agg) -> Result<(), String> {
-    let mut e = Engine::new(&c.case.setup)?;
+    let mut e = match Engine::try_new(&c.case.setup)? {
+        Some(e) => e,
+        None => return Ok(()),
+    };
     for op in &c.case.ops {
         if e.viol.is_some() {
             break;
